@@ -70,7 +70,7 @@ def build_cases(rng, n_desc, gen_kwargs=None, values_per_stream=(2, 2, 1), decod
         req = bytes(rng.randrange(256) for _ in range(rng.choice([0, 1, 2, 3, 4]))) if is_resp else None
         if is_resp and rng.random() < 0.1:
             req = None
-        need = max([p["kind"]["rqpos"] + p["kind"]["len"] for p in ps if p["kind"]["k"] == "matchreq"] or [0])
+        need = max([max(p["kind"]["rqpos"] + p["kind"]["len"], -p["kind"]["rqpos"]) for p in ps if p["kind"]["k"] == "matchreq"] or [0])
         if is_resp and need and rng.random() < 0.7:
             # mostly a triggering request which covers the mirrored bytes (otherwise nothing of the response encodes)
             req = bytes(rng.randrange(256) for _ in range(need + rng.choice([0, 0, 1, 2])))
